@@ -114,7 +114,9 @@ func (g *gen) inject(c *Cfg, e *Env) {
 			}
 			a := &c.Apps[g.rng.Intn(len(c.Apps))]
 			if a.IsHTTP() {
-				if g.rng.Chance(1, 2) || len(a.Listen) == 0 {
+				if g.rng.Chance(2, 5) && len(a.Listen) > 0 {
+					a.Fault = 6 // certificate management cannot be started once every listener is up
+				} else if g.rng.Chance(1, 2) || len(a.Listen) == 0 {
 					a.Fault = 2
 				} else {
 					a.Listen = append(a.Listen, a.Listen[0]) // repeated address: HTTP app's Validate fails
@@ -235,6 +237,9 @@ func (g *gen) history(maxLen int) []Op {
 				if g.rng.Chance(1, 2) {
 					g.inject(&one, &e)
 					one.Top, one.Logs = 0, nil
+					if one.Apps[0].Fault == 6 {
+						one.Apps[0].Fault = 2
+					}
 				}
 				renamed := false
 				if g.rng.Chance(1, 10) {
@@ -356,9 +361,9 @@ func (g *gen) enumerated() [][]Op {
 		add(c, Env{})
 	}
 	for ai := 0; ai < 3; ai++ {
-		for f := 2; f <= 5; f++ {
+		for f := 2; f <= 6; f++ {
 			c := next()
-			if c.Apps[ai].IsHTTP() && f != 2 {
+			if (c.Apps[ai].IsHTTP() && f != 2 && f != 6) || (!c.Apps[ai].IsHTTP() && f == 6) {
 				continue
 			}
 			c.Apps[ai].Fault = f
